@@ -201,6 +201,9 @@ func (ca *CertificateAuthority) Finalize(ctx context.Context, m styp.Certificate
 	}
 	if manifestChanges {
 		if err := ca.writeManifest(ctx, manifest); err != nil {
+			// The write may have landed although it reported a failure. The cached manifest can no
+			// longer be trusted to be what storage holds: read it again at the next use.
+			ca.manifest = nil
 			return err
 		}
 	}
